@@ -91,6 +91,7 @@ func (c *Client) handleVirtualChannelFundingProposal(
 	err := c.validateVirtualChannelFundingProposal(ch, prop)
 	if err != nil {
 		c.rejectProposal(responder, err.Error())
+		return
 	}
 
 	ctx, cancel := context.WithTimeout(c.Ctx(), virtualFundingTimeout)
@@ -99,6 +100,7 @@ func (c *Client) handleVirtualChannelFundingProposal(
 	err = c.fundingWatcher.Await(ctx, prop)
 	if err != nil {
 		c.rejectProposal(responder, err.Error())
+		return
 	}
 
 	c.acceptProposal(responder)
